@@ -377,11 +377,11 @@ def check(ctx):
     ctx.rule("R04.3", "dispatch: order, totality and structural mapping (Swap->swap, Cup->cups, Cap->caps, dagger, Sum, Bubble, objects in order)")
     ctx.rule("R04.4", "adjoint winding is a homomorphism: |z| steps of the matching sign; Ty.l/.r reverse the order")
     ctx.rule("R04.5", "cups/caps: layers compose, left[n-1-i] is joined with right[i], adjointness guard, caps = reversed cups")
-    check_fold(ctx)
-    check_dispatch_order(ctx)
-    check_monoidal(ctx)
-    check_rigid(ctx)
-    check_cups(ctx)
+    ctx.attempt(check_fold, ctx)
+    ctx.attempt(check_dispatch_order, ctx)
+    ctx.attempt(check_monoidal, ctx)
+    ctx.attempt(check_rigid, ctx)
+    ctx.attempt(check_cups, ctx)
     ctx.rule("R04.6", "the structural images of a functor are right: swaps realise the requested permutation (C10), sums are mapped and tensored term-wise in order (C02 R02.3)")
     ctx.depend("R04.6", "C10", "F(Swap(x, y)) = ar_factory.swap(F(x), F(y)): the swap of the target category is the requested permutation", mod="discopy.monoidal")
     ctx.depend("R04.6", "C09", "the tensor functor (the functor behind every evaluation) keeps its loop invariant on boxes and on swaps", rules={"R09.1"}, mod="discopy.tensor")
